@@ -59,7 +59,7 @@ def tree_snapshot(root):
 
 def gen_workload(rng, nmax=40, allow_cases=True, kinds=None, nmin=1, exotic=False):
     """A sweep description: grid, case list, or cases x sub-grid, with 1..nmax settings."""
-    kinds = kinds or ["int", "float", "str", "tuple:2", "array:3", "list:2x2", "bool", "mixed"]
+    kinds = kinds or ["int", "float", "str", "tuple:2", "array:3", "list:2x2", "bool", "mixed", "nptime"]
     while True:
         mode = rng.choice(["grid", "grid", "cases", "cases_sub"]) if allow_cases else "grid"
         w = {"mode": mode, "kind": rng.choice(kinds)}
